@@ -120,3 +120,19 @@ func VerifBoltConfig(t *BoltTransport) (path, bucket string, size uint64, cleanu
 
 // VerifSubDisconnected: has the subscriber's stream been ended (flag read atomically, no side effect).
 func VerifSubDisconnected(s *LocalSubscriber) bool { return atomic.LoadInt32(&s.disconnected) > 0 }
+
+// VerifBoltCorruptLast overwrites the value of the newest stored entry with something json.Unmarshal refuses
+// (fault injection for "registration fails half-way").
+func VerifBoltCorruptLast(t *BoltTransport) {
+	t.db.Update(func(tx *bolt.Tx) error {
+		b := tx.Bucket([]byte(t.bucketName))
+		if b == nil {
+			return nil
+		}
+		if k, _ := b.Cursor().Last(); k != nil {
+			return b.Put(append([]byte{}, k...), []byte("{not json"))
+		}
+
+		return nil
+	})
+}
